@@ -37,6 +37,10 @@ type Op struct {
 type RaceOp struct {
 	At int `json:"at"`
 	Op Op  `json:"op"`
+	// Late: the write is issued while the At-th scanned record is being rewritten - after Merge's liveness
+	// check of that record, right before its copy is written into the merge directory - and goes to the key
+	// of that very record (Op.Key is overwritten with it when the race fires)
+	Late bool `json:"late,omitempty"`
 }
 
 // IterOp describes one iterator session.
@@ -1096,6 +1100,54 @@ func (r *Runner) execMerge(op *Op) (touched [][]byte, global bool, fail *Fail) {
 	var raceFail *Fail
 	if len(op.Race) > 0 && r.IO != nil {
 		scanned := 0
+		var lastScanned []byte
+		late := false
+		for i := range op.Race {
+			late = late || op.Race[i].Late
+		}
+		if late {
+			// the copy of a live record is written into the merge directory after the liveness check of that
+			// record: a write to the same key issued right there lands inside Merge's check-then-act window
+			prev := r.IO.OnEvent
+			mergeDir := r.Dir + "-merge" + string(filepath.Separator)
+			fired := map[int]bool{}
+			r.IO.SetOnEvent(func(ev Event) {
+				if prev != nil {
+					prev(ev)
+				}
+				if ev.Kind != "write" || !strings.HasPrefix(ev.Path, mergeDir) || !strings.HasSuffix(ev.Path, ".data") {
+					return
+				}
+				for i := range op.Race {
+					rc := &op.Race[i]
+					if !rc.Late || fired[i] || rc.At != scanned-1 || raceFail != nil || len(lastScanned) == 0 {
+						continue
+					}
+					fired[i] = true
+					rc.Op.Key = append([]byte(nil), lastScanned...)
+					switch rc.Op.K {
+					case "put":
+						val := OpValue(rc.Op.VSeed, rc.Op.VLen)
+						if err := r.DB.Put(append([]byte(nil), rc.Op.Key...), val); err != nil {
+							raceFail = failf("put-error", "Put racing with Merge failed: %v", err)
+						} else {
+							r.modelPut(rc.Op.Key, val, false)
+							r.F.Muts++
+						}
+					case "del":
+						if err := r.DB.Delete(append([]byte(nil), rc.Op.Key...)); err != nil {
+							raceFail = failf("delete-error", "Delete racing with Merge failed: %v", err)
+						} else {
+							r.modelDel(rc.Op.Key)
+							r.F.Muts++
+						}
+					}
+					touched = append(touched, rc.Op.Key)
+					r.Stats.Label("write-to-the-key-being-rewritten-by-merge")
+				}
+			})
+			defer r.IO.SetOnEvent(prev)
+		}
 		r.IO.OnPoint = func(name string, key []byte) {
 			// At < 0: right after the merge rotation released the lock (before the scan starts);
 			// At >= 0: at the At-th scanned record
@@ -1108,8 +1160,11 @@ func (r *Runner) execMerge(op *Op) (touched [][]byte, global bool, fail *Fail) {
 			} else if name != "merge.scan" {
 				return
 			}
+			if name == "merge.scan" {
+				lastScanned = append(lastScanned[:0], key...)
+			}
 			for i := range op.Race {
-				if op.Race[i].At == at && raceFail == nil {
+				if op.Race[i].At == at && raceFail == nil && !op.Race[i].Late {
 					w := op.Race[i].Op
 					switch w.K {
 					case "put":
@@ -1427,7 +1482,7 @@ func opBytes(op *Op) []byte {
 		b.Write(opBytes(&op.Ops[i]))
 	}
 	for i := range op.Race {
-		fmt.Fprintf(&b, "@%d", op.Race[i].At)
+		fmt.Fprintf(&b, "@%d%v", op.Race[i].At, op.Race[i].Late)
 		b.Write(opBytes(&op.Race[i].Op))
 	}
 	if op.Iter != nil {
@@ -1542,7 +1597,11 @@ func abbrevOp(op *Op) string {
 		if len(op.Race) > 0 {
 			var sub []string
 			for i := range op.Race {
-				sub = append(sub, fmt.Sprintf("@%d %s", op.Race[i].At, abbrevOp(&op.Race[i].Op)))
+				late := ""
+				if op.Race[i].Late {
+					late = "(while that record is being rewritten) "
+				}
+				sub = append(sub, fmt.Sprintf("@%d %s%s", op.Race[i].At, late, abbrevOp(&op.Race[i].Op)))
 			}
 			return "merge race{" + strings.Join(sub, "; ") + "}"
 		}
